@@ -6,6 +6,22 @@ from pathlib import Path
 VERIF = Path(__file__).resolve().parent.parent
 
 CHECKS = {
+    "C07": dict(
+        category="model_checking",
+        text="SC62015Sem.tla has only architectural variables, so any influence of hidden state is a step it cannot explain. TLC (JudgeHistory) "
+             "judges groups of runs of both cores that start from the same architectural state and bytes and differ only in history: a probe "
+             "instruction (every 12th documented structural encoding quick / all thorough, plus flag-producing instructions from all-zero data) on a "
+             "fresh core | with random TEMP0-13 and call bookkeeping | on a long-lived core after an unrelated program (also placed at the probe's own "
+             "address) with the architectural state restored | on a fresh core created last in the process; programs (96 quick / 2500 thorough, "
+             "looping, 7-40 steps) run N+M steps in one go | N steps, registers+memory carried into a NEW core, M steps | twice on fresh cores with "
+             "every step compared | (Python) the snapshot-driven CPUStepper with a new CPU per step against one Emulator. The first differing "
+             "architectural component is named. The fresh Python runs are also judged by JudgeSem (figure in the evidence; disagreements are C04's).",
+        design_ref="DESIGN.md section 4 (C07)",
+        note="Trusted: exec_harness, vh exec module (clear_mem / hidden), binja_test_mocks evaluator, TLC. Restoring the architectural state on a used "
+             "core means: eight registers, whole memory image, running power state.",
+        technique="TLA+ semantics with architectural variables only + TLC-judged groups of recorded runs differing only in hidden state / split point",
+        engine="isa",
+    ),
     "C08": dict(
         category="model_checking",
         text="Registers.tla is model-checked exhaustively (all write/capture/apply sequences up to depth 2 over 16 names x 12 "
@@ -212,7 +228,7 @@ ENGINES = [
     dict(name="mem", path="spec/mem", serves_properties=["C11"], kind_free_text="TLA+ memory bus over alias classes + trace spec"),
     dict(name="kbd", path="spec/kbd", serves_properties=["C14"], kind_free_text="TLA+ keyboard matrix automaton + monitors + trace spec"),
     dict(name="tables", path="spec/tables", serves_properties=["C17"], kind_free_text="TLA+ equalities over dumped tables/constants"),
-    dict(name="isa", path="spec/isa", serves_properties=["C01", "C02", "C03", "C04", "C05", "C06"], kind_free_text="TLA+ SC62015 instruction format (table + grammar) and batch judges"),
+    dict(name="isa", path="spec/isa", serves_properties=["C01", "C02", "C03", "C04", "C05", "C06", "C07"], kind_free_text="TLA+ SC62015 instruction format (table + grammar) and batch judges"),
     dict(name="lcd", path="spec/lcd", serves_properties=["C15"], kind_free_text="TLA+ HD61202 protocol + pixel map specs"),
     dict(name="sched", path="spec/sched", serves_properties=["C18"], kind_free_text="TLA+ virtual-time scheduler spec + trace spec"),
     dict(name="machine", path="spec/machine", serves_properties=["C12", "C13"], kind_free_text="TLA+ timers / interrupts / machine specs + trace specs"),
